@@ -454,7 +454,7 @@ func TestGrid(t *testing.T) {
 			continue
 		}
 		for sub := uint64(0); sub < 1<<uint(mask); sub++ {
-			for _, bm := range [][]uint64{{sub}, {}, {sub | 0xdead0000 << 16, ^uint64(0)}} {
+			for _, bm := range [][]uint64{{sub}, {}, {sub | 0xdead0000<<16, ^uint64(0)}} {
 				evals++
 				if sub != 0 && sub != 1<<uint(mask)-1 && model.NewTree(mask).H >= 2 && len(bm) > 0 {
 					nontriv++
